@@ -14,5 +14,5 @@ if __name__ == '__main__':
         'C18', ['c18', 'det'],
         'TLC-generated models rendered to SQL by /repo; DDL reader; TraceSql.tla checks that every CREATE TABLE with inline FOREIGN KEY '
         'clauses is enabled in statement order (acyclic inline graphs), and determinism across interpreters and hash seeds',
-        'case = (model seed, route in {parsed, built}); non-trivial = the model has >= 1 inline reference',
+        'case = (model seed, route in {parsed, built, morphed = built from other content, rendered, edited in place}); non-trivial = the model has >= 1 inline reference',
         lambda it: any(r['inline'] for r in it['model']['refs']), 95001, 350, 6000))
